@@ -55,3 +55,23 @@ package cmds
 //@   ensures [C18 no-keys-no-change] len(keys) == 0 ==> result.ks == old(c.ks)
 //@   ensures [C18 noslot-first-key] ((old(c.ks) & NoSlot) == NoSlot && len(keys) > 0) ==> result.ks == (NoSlot | slot(old(keys[0])))
 //@   loop 0: invariant [C18] rangeindex >= -1 && rangeindex < len(keys) && (old(c.ks) & NoSlot) != NoSlot && (rangeindex == -1 ==> c.ks == old(c.ks)) && (rangeindex >= 0 ==> (forall j int :: 0 <= j && j <= rangeindex ==> slot(keys[j]) == c.ks) && (old(c.ks) == InitSlot || old(c.ks) == c.ks))
+
+// ---------------------------------------------------------------------------------------------
+// C08 — the cache identity of a cacheable command (cmds.go CacheKey).
+// catskip(s, kp, n): concatenation of s[0..n) without s[kp].
+//@ specfn rec catskip(s []string, kp int, n int) string = ite(n <= 0, "", ite(n - 1 == kp, catskip(s, kp, n - 1), catskip(s, kp, n - 1) + s[n - 1]))
+
+//@ func CacheKey
+//@   requires c.cs != nil && len(c.cs.s) >= 2
+//@   requires [script-has-its-key] (c.cf & scrRoTag) == scrRoTag ==> len(c.cs.s) >= 4
+//@   safety C08
+//@   let kp = ite((c.cf & scrRoTag) == scrRoTag && len(c.cs.s) != 2, 3, 1)
+//@   panics when [C08 multi-key-script-rejected] len(c.cs.s) != 2 && (c.cf & scrRoTag) == scrRoTag && c.cs.s[2] != "1"
+//@   ensures [C08 key-is-the-key-argument] key == c.cs.s[kp]
+//@   ensures [C08 command-is-every-other-argument] command == catskip(c.cs.s, kp, len(c.cs.s))
+//@   loop 0: invariant [C08] rangeindex >= -1 && rangeindex < len(c.cs.s) && length >= 0
+//@   loop 1: invariant [C08] rangeindex >= -1 && rangeindex < len(c.cs.s) && sbstr(&sb) == catskip(c.cs.s, kp, rangeindex + 1) && (rangeindex >= kp ==> key == c.cs.s[kp])
+
+// The identity is the plain concatenation of the non-key arguments, so argument boundaries are lost: stated as a
+// lemma over the specification (string theory), it FAILS (recorded as a known finding in /verif/known_findings.txt).
+//@ lemma [C08 identity-is-injective] smtfile ../../../verif/spec/c08_injective.smt2
